@@ -5,6 +5,9 @@
 set -u
 D=$(cd "$1" && pwd); TIER=${2:-quick}
 PID=$(/venv/bin/python -c "import json,sys; print(json.load(open('$D/meta.json'))['property'])")
+OWNPID=$PID
+# SEED_PID=Cyy runs the check of ANOTHER property against this seeded change (recorded as "<tier>@Cyy")
+if [ -n "${SEED_PID:-}" ]; then PID=$SEED_PID; fi
 WT=/var/tmp/seedwt-$$
 git -C /repo worktree add -q --detach $WT HEAD || exit 2
 trap 'git -C /repo worktree remove --force $WT >/dev/null 2>&1' EXIT
@@ -14,13 +17,14 @@ DEMO=$(ls $D/demo* | head -1)
 git -C $WT apply $D/patch.diff || { echo "$D: patch does not apply"; exit 2; }
 ( cd $WT && PYTHONPATH=$PP PYTHONDONTWRITEBYTECODE=1 timeout 300 /venv/bin/python $DEMO >/dev/null 2>&1 ); DX=$?
 BL=$(/verif/tools/run_baseline.py $WT | head -1)
-LOG=/verif/work/seed-$(basename $D)-$TIER.log
+LOG=/verif/work/seed-$(basename $D)-$TIER-$PID.log
 PRIV=/var/tmp/seedpriv-$$; mkdir -p $PRIV/work; cp -a /verif/coq $PRIV/coq
 ( cd /verif && VERIF_COQDIR=$PRIV/coq VERIF_WORK=$PRIV/work VERIF_EVIDENCE_DIR=/verif/work/seed-evidence VERIF_REPO=$WT ./check $PID --tier $TIER > $LOG 2>&1 ); RC=$?
 mkdir -p /verif/work/seed-replays/$(basename $D); cp $PRIV/work/$PID/replay-*.json /verif/work/seed-replays/$(basename $D)/ 2>/dev/null; rm -rf $PRIV
 V=$(grep -c '^VIOLATION' $LOG); NF=$(grep -c 'no-failing-input-found' $LOG)
 echo "$(basename $D) prop=$PID tier=$TIER demo_clean_rc=$DC demo_changed_rc=$DX [$BL] check_rc=$RC violations=$V no_input=$NF"
-/venv/bin/python - "$D" "$TIER" "$DC" "$DX" "$BL" "$RC" "$V" "$NF" "$LOG" <<'PY'
+KEY=$TIER; if [ "$PID" != "$OWNPID" ]; then KEY="$TIER@$PID"; fi
+/venv/bin/python - "$D" "$KEY" "$DC" "$DX" "$BL" "$RC" "$V" "$NF" "$LOG" <<'PY'
 import json,sys,os
 d,tier,dc,dx,bl,rc,v,nf,log=sys.argv[1:]
 p=os.path.join(d,"result.json")
